@@ -35,20 +35,15 @@ XT = dict(src="C05_xmltree.c", env=["vp_alloc.c", "vp_libc.c"], units=["hwloc/bi
 XT_ENC = ["hwloc__xml_export_topology", "hwloc__xml_v2export_object", "hwloc__xml_export_object_contents", "hwloc__xml_export_info_attr", "hwloc__xml_export_infos", "hwloc_look_xml", "hwloc__xml_import_object", "hwloc__xml_import_object_attr", "hwloc__xml_import_obj_info", "hwloc___xml_import_info", "hwloc__xml_import_pagetype",
           "hwloc_insert_object_by_parent", "hwloc_discover", "hwloc_bitmap_asprintf", "hwloc_bitmap_sscanf", "hwloc_type_sscanf"]
 for nm, d, extra, tiers in (("xml_roundtrip_tree", {"FIX": 0}, [], {"quick": {}, "thorough": {}}),
-                            ("xml_roundtrip_fx1", {"FIX": 1, "FIXM": 1}, [], {"quick": {}, "thorough": {}}),
-                            ("xml_roundtrip_fx2", {"FIX": 1, "FIXM": 2}, [], {"quick": {}, "thorough": {}}),
-                            ("xml_roundtrip_fx4", {"FIX": 1, "FIXM": 4}, [], {"quick": {}, "thorough": {}}),
-                            ("xml_roundtrip_fx8", {"FIX": 1, "FIXM": 8}, [], {"quick": {}, "thorough": {}}),
-                            ("xml_roundtrip_fx16", {"FIX": 1, "FIXM": 16}, [], {"quick": {}, "thorough": {}}),
-                            ("xml_roundtrip_fx32", {"FIX": 1, "FIXM": 32}, [], {"quick": {}, "thorough": {}}),
-                            ("xml_roundtrip_fx64", {"FIX": 1, "FIXM": 64}, [], {"quick": {}, "thorough": {}}),
-                            ("xml_roundtrip_rich", {"FIX": 1}, [], {"thorough": {}}),
-                            ("xml_roundtrip_rich_v2", {"FIX": 1, "XFLAGS": "1UL"}, [], {"thorough": {}}),
+                            ("xml_roundtrip_rich", {"FIX": 1, "FIXM": 95}, [], {"quick": {}, "thorough": {}}),
+                            ("xml_roundtrip_rich_v2", {"FIX": 1, "FIXM": 95, "XFLAGS": "1UL"}, [], {"quick": {}, "thorough": {}}),
+                            ("xml_roundtrip_io", {"FIX": 1, "FIXM": 32}, [], {"thorough": {"timeout": 3000}}),
                             ("xml_roundtrip_distances", {"FIX": 0, "WITH_DIST": 2}, ["hwloc___xml_v2export_distances", "hwloc__xml_v2export_distances", "hwloc__xml_import_distances", "hwloc_internal_distances_add_by_index", "hwloc_internal_distances_refresh"], {"quick": {}, "thorough": {}}),
                             ("xml_roundtrip_memattrs", {"FIX": 0, "WITH_MEMATTR": 1}, ["hwloc__xml_export_memattrs", "hwloc__xml_export_memattr_target", "hwloc__xml_import_memattr", "hwloc__xml_import_memattr_value", "hwloc_internal_memattr_set_value"], {"quick": {}, "thorough": {}}),
                             ("xml_roundtrip_cpukinds", {"FIX": 0, "WITH_CPUKINDS": 1}, ["hwloc__xml_export_cpukinds", "hwloc__xml_import_cpukind", "hwloc_internal_cpukinds_register", "hwloc_internal_cpukinds_rank"], {"quick": {}, "thorough": {}})):
     HARNESSES.append(dict(XT, name=nm, entry="h_xml_roundtrip", defines=d, encoded=XT_ENC + extra, tiers=tiers, cost=120,
-                          bounds="one fixture topology built by the real core (%s); the run is concrete: CBMC interprets export -> element tree -> import inside the real discovery pipeline -> comparison -> re-export, checking every access" % ("9 objects" if d.get("FIX") == 0 else "16 objects: L2, Group(dont_merge), memory-side cache, page types, bridge/PCI/OS device, Misc, names, subtype, object and topology infos")))
+                          bounds="one fixture topology built by the real core (%s); the run is concrete: CBMC interprets export -> element tree -> import inside the real discovery pipeline -> comparison -> re-export, checking every access" % ("9 objects" if d.get("FIX") == 0 else "9 objects + bridge/PCI/OS device" if d.get("FIXM") == 32 else "13 objects: L2, Group(dont_merge), memory-side cache, page types, Misc, names, subtype, object and topology infos"),
+                          core=(d.get("FIXM") != 32)))
 XI = dict(XT, unwind=12)
 XI["unwindset"] = dict(XT_UW, **dict({"h_import_distances.%d" % k: 18 for k in range(6)}, **{"dist_case.0": 5, "dist_case.1": 5, "dist_case.2": 5, "dist_case.3": 5, "dist_case.4": 17, "dist_case.5": 17}))
 C06_EXTRA = []      # the crafted-input harnesses belong to C06 (specs/C06.py takes them from here)
